@@ -20,6 +20,25 @@ def one(bid):
         if r.returncode:
             return bid, "APPLY-FAIL", [], [], [r.stdout[:200]]
         viol, err, det = [], [], []
+        if os.environ.get("BENIGN_SLOW") != "1":
+            # one load of the patched tree, one forked child per property (tools/allcheck.py)
+            r = subprocess.run(["/venv/bin/python", os.path.join(V, "tools", "allcheck.py"), d, "--jobs", "2"] + props,
+                               capture_output=True, text=True, env=dict(os.environ, VERIF_NO_EVIDENCE="1"))
+            cur, rc = None, 0
+            for l in r.stdout.splitlines():
+                if l.startswith("== "):
+                    cur, rc = l.split()[1], int(l.split("rc=")[1])
+                    if rc == 1:
+                        viol.append(cur)
+                    elif rc:
+                        err.append(cur)
+                elif rc == 1 and l.startswith("  rule=") or rc not in (0, 1) and l.startswith("ANALYSIS"):
+                    det.append(l.strip()[:260])
+            if r.returncode or cur is None:
+                err.append("allcheck")
+                det.append((r.stderr or r.stdout)[-300:])
+            return bid, ("quiet" if not viol and not err else "FALSE-ALARM"), viol, err, det[:6]
+        viol, err, det = [], [], []
         for p in props:
             r = subprocess.run(["/venv/bin/python", os.path.join(V, "check"), p, "--repo", d], capture_output=True, text=True, env=dict(os.environ, VERIF_NO_EVIDENCE="1"))
             if r.returncode == 1:
